@@ -178,6 +178,8 @@ def one_history(rec, rnd, idx, nops):
                     got = ("ok",)
                 except KeyError:
                     got = ("raise", KeyError)
+                except Exception as ex:  # any other exception is an observable outcome too, never a harness crash
+                    got = ("raise_other", type(ex))
                 log.append(("add", repr(key), repr(obj), got[0]))
                 if exp[0] == "raise":
                     rec.count("add_after_locking_get")
@@ -197,7 +199,9 @@ def one_history(rec, rnd, idx, nops):
                     got = ("raise", KeyError)
                 except RuntimeError:
                     got = ("raise", RuntimeError)
-                log.append(("get_opt" if optional else "get", repr(key), got[0]))
+                except Exception as ex:  # e.g. AttributeError from a key without default: an observable outcome, judged by the conditions below
+                    got = ("raise_other", type(ex))
+                log.append(("get_opt" if optional else "get", repr(key), got[0] + (":" + got[1].__name__ if got[0] == "raise_other" else "")))
                 if exp[0] == "raise":
                     rec.count("simple_key_with_several_dependencies")
                     rec.check("simple_key_with_several_dependencies_raises", got[0] == "raise" and got[1] is RuntimeError, case=case, detail=log[-8:])
